@@ -188,12 +188,28 @@ class CFG:
                 outs = [(t["target"], None)]
             elif k == "switch":
                 outs = [(bb, v) for v, bb in t["targets"]] + [(t["otherwise"], "otherwise")]
+                d = t["discr"]
+                if d["k"] in ("copy", "move") and not d["place"]["proj"]:
+                    # a temporary holding a literal (`_5 = const false; switchInt(move _5)`)
+                    ds = fn.defs.get(d["place"]["local"], [])
+                    if len(ds) == 1 and ds[0][0] == "stmt" and ds[0][3]["rv"]["k"] == "use" and ds[0][3]["rv"]["op"]["k"] == "const" \
+                            and not fn.locals[d["place"]["local"]]["name"]:
+                        d = ds[0][3]["rv"]["op"]
+                if d["k"] == "const":
+                    # `if cfg!(debug_assertions)` / `if false`: only the matching edge is real
+                    cv = {"const false": 0, "false": 0, "const true": 1, "true": 1}.get(d["s"], const_int(("const", d["s"])))
+                    if cv is not None:
+                        hit = [(bb, v) for v, bb in t["targets"] if v == cv]
+                        outs = hit[:1] if hit else [(t["otherwise"], "otherwise")]
             elif k in ("call",):
                 if t["target"] is not None:
                     outs = [(t["target"], None)]
             elif k in ("assert", "drop"):
                 outs = [(t["target"], None)]
             for (o, lab) in outs:
+                ob = fn.blocks[o]
+                if ob["term"]["k"] == "unreachable" and not ob["stmts"]:
+                    continue  # compiler-generated impossible arm of an exhaustive match
                 if o not in self.succ[i]:
                     self.succ[i].append(o)
                     self.pred[o].append(i)
@@ -385,6 +401,12 @@ class VP:
             return base[1][e["i"]]
         if base[0] == "adt" and e["i"] < len(base[3]) and e.get("of") == base[1]:
             return base[3][e["i"]]
+        # payload of a success variant: `(x as Some).0`, `(branch(x) as Continue).0`  ==  some(x)
+        if base[0] == "downcast" and e["i"] == 0:
+            if base[2] in ("Some", "Ok"):
+                return ("some", base[1])
+            if base[2] == "Continue" and base[1][0] == "call" and base[1][1] == "std::ops::Try::branch" and base[1][2]:
+                return ("some", base[1][2][0])
         # closure environment -> upvar
         if fn.is_closure:
             b = base
